@@ -5,7 +5,7 @@ followed by a PDU decode of the bytes the scanner returns, so on a `Good` frame 
 'incomplete' on every strict non-empty prefix, and on the frame followed by anything they answer
 what the PDU decoder says about the frame's PDU.
 -/
-namespace Modbus
+namespace Modbus.Reception
 
 /-- `ExceptionResponse::try_from` first, then `Response::try_from` (the client-side order) -/
 def decodeRspPdu (pdu : Bytes) : Res ResponsePdu :=
@@ -26,25 +26,25 @@ theorem isEmpty_false_of_ne {p : Bytes} (h : p ≠ []) : p.isEmpty = false := by
 
 /-! ### RTU -/
 
-theorem Rtu.serverDecodeRequest_prefix {f : Bytes} {x : Rtu.Frame} (g : Good Rtu.decodeReq f x)
+theorem rtu_serverDecodeRequest_prefix {f : Bytes} {x : Rtu.Frame} (g : Good Rtu.decodeReq f x)
     (p : Bytes) (hne : p ≠ []) (hp : p <+: f) (hlt : p.length < f.length) :
     Rtu.serverDecodeRequest p = .ok none := by
   unfold Rtu.serverDecodeRequest
   simp only [isEmpty_false_of_ne hne, Bool.false_eq_true, if_false, g.pre p hne hp hlt, Res.bind'_ok]
 
-theorem Rtu.serverDecodeRequest_whole {f : Bytes} {x : Rtu.Frame} (g : Good Rtu.decodeReq f x)
+theorem rtu_serverDecodeRequest_whole {f : Bytes} {x : Rtu.Frame} (g : Good Rtu.decodeReq f x)
     (rest : Bytes) :
     Rtu.serverDecodeRequest (f ++ rest) = (Request.decode x.pdu).map fun r => some (x.slave, r) := by
   unfold Rtu.serverDecodeRequest
   simp only [append_ne_nil_of_pos g.pos rest, Bool.false_eq_true, if_false, g.whole rest, Res.bind'_ok]
 
-theorem Rtu.clientDecodeResponse_prefix {f : Bytes} {x : Rtu.Frame} (g : Good Rtu.decodeRsp f x)
+theorem rtu_clientDecodeResponse_prefix {f : Bytes} {x : Rtu.Frame} (g : Good Rtu.decodeRsp f x)
     (p : Bytes) (hne : p ≠ []) (hp : p <+: f) (hlt : p.length < f.length) :
     Rtu.clientDecodeResponse p = .ok none := by
   unfold Rtu.clientDecodeResponse
   simp only [isEmpty_false_of_ne hne, Bool.false_eq_true, if_false, g.pre p hne hp hlt, Res.bind'_ok]
 
-theorem Rtu.clientDecodeResponse_whole {f : Bytes} {x : Rtu.Frame} (g : Good Rtu.decodeRsp f x)
+theorem rtu_clientDecodeResponse_whole {f : Bytes} {x : Rtu.Frame} (g : Good Rtu.decodeRsp f x)
     (rest : Bytes) :
     Rtu.clientDecodeResponse (f ++ rest) = (decodeRspPdu x.pdu).map fun r => some (x.slave, r) := by
   unfold Rtu.clientDecodeResponse decodeRspPdu
@@ -58,26 +58,26 @@ theorem Rtu.clientDecodeResponse_whole {f : Bytes} {x : Rtu.Frame} (g : Good Rtu
 
 /-! ### TCP -/
 
-theorem Tcp.decodeRequest_prefix {f : Bytes} {x : Tcp.Frame} (g : Good Tcp.decodeReq f x)
+theorem tcp_decodeRequest_prefix {f : Bytes} {x : Tcp.Frame} (g : Good Tcp.decodeReq f x)
     (p : Bytes) (hne : p ≠ []) (hp : p <+: f) (hlt : p.length < f.length) :
     Tcp.decodeRequest p = .ok none := by
   unfold Tcp.decodeRequest
   simp only [isEmpty_false_of_ne hne, Bool.false_eq_true, if_false, g.pre p hne hp hlt, Res.bind'_ok]
 
-theorem Tcp.decodeRequest_whole {f : Bytes} {x : Tcp.Frame} (g : Good Tcp.decodeReq f x)
+theorem tcp_decodeRequest_whole {f : Bytes} {x : Tcp.Frame} (g : Good Tcp.decodeReq f x)
     (rest : Bytes) :
     Tcp.decodeRequest (f ++ rest) =
       (Request.decode x.pdu).map fun r => some (x.transactionId, x.unitId, r) := by
   unfold Tcp.decodeRequest
   simp only [append_ne_nil_of_pos g.pos rest, Bool.false_eq_true, if_false, g.whole rest, Res.bind'_ok]
 
-theorem Tcp.decodeResponse_prefix {f : Bytes} {x : Tcp.Frame} (g : Good Tcp.decodeRsp f x)
+theorem tcp_decodeResponse_prefix {f : Bytes} {x : Tcp.Frame} (g : Good Tcp.decodeRsp f x)
     (p : Bytes) (hne : p ≠ []) (hp : p <+: f) (hlt : p.length < f.length) :
     Tcp.decodeResponse p = .ok none := by
   unfold Tcp.decodeResponse
   simp only [isEmpty_false_of_ne hne, Bool.false_eq_true, if_false, g.pre p hne hp hlt, Res.bind'_ok]
 
-theorem Tcp.decodeResponse_whole {f : Bytes} {x : Tcp.Frame} (g : Good Tcp.decodeRsp f x)
+theorem tcp_decodeResponse_whole {f : Bytes} {x : Tcp.Frame} (g : Good Tcp.decodeRsp f x)
     (rest : Bytes) :
     Tcp.decodeResponse (f ++ rest) =
       (decodeRspPdu x.pdu).map fun r => some (x.transactionId, x.unitId, r) := by
@@ -90,4 +90,4 @@ theorem Tcp.decodeResponse_whole {f : Bytes} {x : Tcp.Frame} (g : Good Tcp.decod
     simp only
     cases Response.decode x.pdu <;> rfl
 
-end Modbus
+end Modbus.Reception
